@@ -432,7 +432,24 @@ fn gen_run_tree(expect: &mut Vec<([u8; 4], u16, Vec<u8>, u32)>) -> Tree {
     let msgs = ["Hello!", "Hello this is an awesome test message!", "a=b", "x", "[bracket", "it\\'s", "semi;colon here"];
     let n_recv = 1 + sim::choose(3) as usize;
     let by_factory = n_recv > 1 || sim::chance(1, 2);
-    let with_arp = sim::choose(3); // 0 none, 1 explicit on all, 2 auto-protocol on all
+    // ARP per group (a receiver and the senders that write to it): 0 none, 1 explicit, 2 by
+    // auto-protocol='true', 3 none with an explicit auto-protocol='false'. Every machine makes its
+    // own choice among the modes that agree with its group on whether ARP is present.
+    let uniform = sim::chance(1, 2);
+    let base_mode = sim::choose(4);
+    let group_arp: Vec<bool> = (0..n_recv).map(|_| if uniform { base_mode == 1 || base_mode == 2 } else { sim::chance(1, 2) }).collect();
+    if group_arp.iter().any(|a| *a) && group_arp.iter().any(|a| !*a) {
+        sim::count("probe_machines_with_and_without_arp");
+    }
+    let pick_mode = |arp: bool| -> u64 {
+        if uniform {
+            base_mode
+        } else if arp {
+            1 + sim::choose(2)
+        } else {
+            3 * sim::choose(2)
+        }
+    };
     let mut machines = vec![];
     let mut recv_info = vec![]; // (name, ip, port, net index)
     for i in 0..n_recv {
@@ -462,6 +479,14 @@ fn gen_run_tree(expect: &mut Vec<([u8; 4], u16, Vec<u8>, u32)>) -> Tree {
         }
         order
     };
+    let auto_opt = |opts: &mut Vec<(String, String)>, mode: u64| {
+        if mode == 2 {
+            opts.push((s("auto-protocol"), s("true")));
+        }
+        if mode == 3 {
+            opts.push((s("auto-protocol"), s("false")));
+        }
+    };
     let protos = |with_arp: u64| {
         let mut p = vec![vec![(s("name"), s("IPv4"))], vec![(s("name"), s("UDP"))]];
         if with_arp == 1 {
@@ -471,9 +496,8 @@ fn gen_run_tree(expect: &mut Vec<([u8; 4], u16, Vec<u8>, u32)>) -> Tree {
     };
     for (i, (name, ip, port, net)) in recv_info.iter().enumerate() {
         let mut opts = vec![(s("name"), name.clone())];
-        if with_arp == 2 {
-            opts.push((s("auto-protocol"), s("true")));
-        }
+        let with_arp = pick_mode(group_arp[i]);
+        auto_opt(&mut opts, with_arp);
         let ipstr = format!("{}.{}.{}.{}", ip[0], ip[1], ip[2], ip[3]);
         let mut app = vec![(s("name"), s("capture")), (s("ip"), ipstr), (s("port"), format!("{port}"))];
         if single_message_capture && counts[i] == 1 {
@@ -509,9 +533,8 @@ fn gen_run_tree(expect: &mut Vec<([u8; 4], u16, Vec<u8>, u32)>) -> Tree {
         if count > 1 || sim::chance(1, 3) {
             opts.push((s("count"), format!("{count}")));
         }
-        if with_arp == 2 {
-            opts.push((s("auto-protocol"), s("true")));
-        }
+        let with_arp = pick_mode(group_arp[r]);
+        auto_opt(&mut opts, with_arp);
         let to = if by_name { rname.clone() } else { format!("{}.{}.{}.{}", rip[0], rip[1], rip[2], rip[3]) };
         let port = if sim::chance(1, 2) { format!("{rport}") } else { format!("0x{rport:x}") };
         machines.push(TMachine {
